@@ -207,6 +207,34 @@ for _op in ("purge", "calculate", "recalculate"):
                                            contract=Contract(H + _op, ensures=dict(EXACT), result_type="None", props=["C13", "C14"], use_at_calls=False))
 
 
+# ---- C13: removing one member leaves the other members and every candle manager in place
+def remove_builder(ex, st):
+    from hexvc.state import DictP, ListP, ObjP
+    src = ex.ctx.source
+    hcls = src.module("hexital.core.hexital").classes["Hexital"]
+    icls = src.module("hexital.indicators.ema").classes["EMA"]
+    mcls = src.module("hexital.core.candle_manager").classes["CandleManager"]
+    for c in (hcls, icls, mcls):
+        src.resolve_class_bases(c)
+    mk = lambda tf: st.alloc(ObjP(mcls, {"candles": st.alloc(ListP([])), "timeframe": tf, "timeframe_fill": False, "candles_lifespan": None, "candlestick_type": None}))
+    m0, m1 = mk(None), mk("T5")
+    mki = lambda nm, m: st.alloc(ObjP(icls, {"_output_name": nm, "fullname_override": nm, "timeframe": "T5", "_candles": m, "touched": False,
+                                            "sub_indicators": st.alloc(DictP({})), "managed_indicators": st.alloc(DictP({}))}))
+    i1, i2 = mki("first", m1), mki("second", m1)
+    h = st.alloc(ObjP(hcls, {"name": "hex", "_candles": st.alloc(DictP({"default": m0, "T5": m1})),
+                             "_indicators": st.alloc(DictP({"first": i1, "second": i2}))}))
+    yield st, [h, "first"], {}, {"self": h, "name": "first", "i1": i1, "i2": i2, "m0": m0, "m1": m1}
+
+
+HEX_TASKS[H + "remove_indicator"] = dict(builder=remove_builder, natives={I + "purge": _touch}, contract=Contract(
+    H + "remove_indicator",
+    ensures={
+        "named-member-purged-and-unregistered": "i1.touched == True and LenOf(self._indicators) == 1 and self._indicators['second'] is i2",
+        "other-member-untouched": "i2.touched == False and i2._candles is m1",
+        "every-manager-stays-registered": "LenOf(self._candles) == 2 and self._candles['default'] is m0 and self._candles['T5'] is m1",
+    }, result_type="None", props=["C13", "C14", "C08"], use_at_calls=False))
+
+
 # ---- C08: an indicator's settings dict builds the same indicator again
 def roundtrip_builder(clsq, kwargs):
     def build(ex, st):
